@@ -51,6 +51,24 @@ def forward(rep, d, gen, n):
     core.run([hb, "dec", gen, obs, tmp], timeout=3000)
     v = core.validate("C04Trace", "C04Trace.cfg", d, obs, nparts=16, boundary=None, heap="4g")
     rep.add_validation("oasis-forward(spec bytes -> read_oas, oas_validate)", v, n, distinct=n)
+    # the same files under AddressSanitizer: a memory error aborts the child and shows as a Crash event
+    core.build("asan")
+    obs_a = os.path.join(d, "obs_dec_asan.ndjson")
+    core.run([core.hbin("h_oas", "asan"), "dec", gen, obs_a, tmp], timeout=3000)
+    nbad = 0
+    with open(obs_a) as f:
+        for ln, l in enumerate(f, 1):
+            if l.startswith('{"e":"Crash"') or l.startswith('{"e":"Hang"'):
+                nbad += 1
+                if nbad <= 3:
+                    rp = os.path.join(d, "replay", "dec_asan_%d.ndjson" % ln)
+                    os.makedirs(os.path.dirname(rp), exist_ok=True)
+                    with open(rp, "w") as o:
+                        o.write(l)
+                    rep.violation("C04 dec asan " + json.loads(l)["e"], rp,
+                                  "read_oas of a specification-encoded file under AddressSanitizer")
+    rep.cov["parts"]["oasis-forward-asan(read_oas under AddressSanitizer)"] = dict(
+        kind="replay", files=n, crashes=nbad)
     for line, why, fn in v["rejects"]:
         rp = os.path.join(d, "replay", "dec_%d.ndjson" % line)
         os.makedirs(os.path.dirname(rp), exist_ok=True)
